@@ -136,6 +136,15 @@ def mk_key(kd):
     return NamespacedAttribute(kd[1], kd[2])
 
 
+def key_obj(k):
+    """a key of an attrs argument: a plain str, or a key descriptor (NamespacedAttribute)"""
+    return k if isinstance(k, str) else mk_key(k)
+
+
+def key_str(k) -> str:
+    return str(key_obj(k))
+
+
 def enc_key(kd) -> str:
     if kd[0] == "p":
         return "p:" + tok(kd[1])
@@ -216,7 +225,8 @@ def canon_model_tag(reply: str) -> str:
 
 
 def show_tag(tag) -> str:
-    return f"ok {cls_name(tag.attrs)} {lcls_id(tag.attribute_value_list_class)} {enc_items(tag.attrs)} R {observe_render(tag)}"
+    return (f"ok {cls_name(tag.attrs)} {lcls_id(tag.attribute_value_list_class)} x{1 if tag.known_xml else 0} "
+            f"{enc_items(tag.attrs)} R {observe_render(tag)}")
 
 
 SAFE = set("abcdefghijklmnopqrstuvwxyzABCDEFGHIJKLMNOPQRSTUVWXYZ0123456789-_.:+ ")
@@ -241,7 +251,7 @@ def default_decode_check(tag):
         if not set(s) <= SAFE or not set(str(k)) <= SAFE:
             return None
         parts.append(f' {k}="{s}"')
-    want = "<" + tag.name + "".join(parts)
+    want = "<" + (tag.prefix + ":" if tag.prefix else "") + tag.name + "".join(parts)
     try:
         got = tag.decode()
     except Exception as e:  # pragma: no cover
@@ -294,14 +304,54 @@ def builder_kwargs(cfg):
     return kw
 
 
+_XMLISH = None
+
+
+def xmlish_builder_class():
+    """An XML-flavoured builder that can run here (lxml is not installed): html.parser's tokenizer, but `is_xml = True`
+    and no multi-valued table of its own, i.e. the base TreeBuilder default, as bs4's XML builders have."""
+    global _XMLISH
+    if _XMLISH is None:
+        from bs4.builder import TreeBuilder
+        from bs4.builder._htmlparser import HTMLParserTreeBuilder
+        _XMLISH = type("XmlishBuilder", (HTMLParserTreeBuilder,), {
+            "is_xml": True, "NAME": "xmlish", "features": ["xmlish"], "ALTERNATE_NAMES": [],
+            "DEFAULT_CDATA_LIST_ATTRIBUTES": TreeBuilder.DEFAULT_CDATA_LIST_ATTRIBUTES})
+    return _XMLISH
+
+
+def make_builder(cfg):
+    from bs4.builder._htmlparser import HTMLParserTreeBuilder
+    cls = xmlish_builder_class() if cfg.get("xml") else HTMLParserTreeBuilder
+    return cls(**builder_kwargs(cfg))
+
+
+def make_soup(markup, cfg, shared=None):
+    """the documented route (`BeautifulSoup(markup, "html.parser", **options)`) for the HTML flavour, a builder object for
+    a shared builder or the XML flavour"""
+    from bs4 import BeautifulSoup
+    with warnings.catch_warnings():
+        warnings.simplefilter("ignore")
+        if shared is not None:
+            return BeautifulSoup(markup, builder=shared)
+        if cfg.get("xml"):
+            return BeautifulSoup(markup, builder=make_builder(cfg))
+        return BeautifulSoup(markup, "html.parser", **builder_kwargs(cfg))
+
+
 def cfg_model(cfg):
     d = cfg.get("dcls", "absent")
-    return enc_map(cfg["mva"]), ("plain" if d == "absent" else d), str(cfg.get("lcls", 0) or 1)
+    m = enc_map(cfg["mva"])
+    if cfg.get("xml") and cfg["mva"] == "default":
+        m = enc_map([[k, sorted(v)] for k, v in sorted(live_table(cfg).items())])     # the base default (empty)
+    return m, ("plain" if d == "absent" else d), str(cfg.get("lcls", 0) or 1) + ("x" if cfg.get("xml") else "")
 
 
 def live_table(cfg):
     """the map in force, as a dict name -> set (None when disabled)"""
     if cfg["mva"] == "default":
+        if cfg.get("xml"):
+            return xmlish_builder_class().DEFAULT_CDATA_LIST_ATTRIBUTES
         from bs4.builder import HTMLParserTreeBuilder
         return HTMLParserTreeBuilder.DEFAULT_CDATA_LIST_ATTRIBUTES
     if cfg["mva"] is None:
@@ -371,6 +421,13 @@ def oracle_render(d) -> str:
 
 def oracle(case) -> str:
     kind = case["kind"]
+    if kind == "format":
+        return oracle_format(case)
+    if kind == "access":
+        return oracle_access(case)
+    if kind == "history":
+        states = simulate_history(case)[1]
+        return " ## ".join(states[-1]) if states and states[-1] else "-"
     if kind == "split":
         r = case["s"].split()
         return "/".join(tok(t) for t in r) if r else "-"
@@ -402,24 +459,32 @@ def oracle(case) -> str:
         lcls = cfg.get("lcls", 0) or 1
         oracle_multi(live_table(cfg), case["name"], d, lcls)
         dcls = cfg.get("dcls", "absent")
-        return f"ok {'plain' if dcls == 'absent' else dcls} {lcls} {enc_items(d)} R {oracle_render(d)}"
+        return f"ok {'plain' if dcls == 'absent' else dcls} {lcls} x{1 if cfg.get('xml') else 0} {enc_items(d)} R {oracle_render(d)}"
     if kind == "tag":
         cfg = case["cfg"]
         if cfg is None:
             cls = "xml" if case["isxml"] else "html"
             lcls = 1
+            x = 1 if case["isxml"] else 0
         else:
             dcls = cfg.get("dcls", "absent")
             cls = "plain" if dcls == "absent" else dcls
             lcls = cfg.get("lcls", 0) or 1
+            x = 1 if cfg.get("xml") else 0
         d = {}
         try:
-            if case["attrs"] is not None:
+            if case.get("via") == "copy":
+                # a copy holds the original's values in the same kind of dictionary (lists in new lists), assigned
+                # through that dictionary's own rules; it keeps is_xml and gets the default list class
+                cls = case["acls"]
+                for k, vd in case["attrs"]:
+                    oracle_store(cls, d, key_str(k), _copy_val(mk(vd)))
+            elif case["attrs"] is not None:
                 table = live_table(cfg) if cfg is not None else None
                 if table:
                     # the dictionary passed in is kept; covered string values are split; assignments go through its class
                     acls = case["acls"]
-                    d = {k: mk(vd) for k, vd in case["attrs"]}
+                    d = {key_str(k): mk(vd) for k, vd in case["attrs"]}
                     for k in list(d):
                         if covered(table, case["name"], k):
                             v = d[k]
@@ -429,12 +494,12 @@ def oracle(case) -> str:
                     cls = acls
                 else:
                     for k, vd in case["attrs"]:
-                        oracle_store(cls, d, k, mk(vd))
+                        oracle_store(cls, d, key_str(k), mk(vd))
             for kd, vd in case["sets"]:
                 oracle_store(cls, d, mk_key(kd), mk(vd))
         except ValueError:
             return "valueError"
-        return f"ok {cls} {lcls} {enc_items(d)} R {oracle_render(d)}"
+        return f"ok {cls} {lcls} x{x} {enc_items(d)} R {oracle_render(d)}"
     raise ValueError(kind)
 
 
@@ -477,12 +542,18 @@ def execute(case):
     dc, lc = _classes()
     kind = case["kind"]
     extra = []
+    if kind == "history":
+        return exec_history(case)
+    if kind == "format":
+        return exec_format(case)
+    if kind == "access":
+        return exec_access(case)
     if kind == "split":
         r = nonwhitespace_re.findall(case["s"])
         return ("/".join(tok(t) for t in r) if r else "-"), extra
     if kind == "multi":
         cfg = case["cfg"]
-        soup = BeautifulSoup("", "html.parser", **builder_kwargs(cfg))
+        soup = make_soup("", cfg)
         attrs = dc["plain"]()
         dict.__setitem__(attrs, case["attr"], "a b")
         out = soup.builder._replace_cdata_list_attribute_values(case["tag"], attrs)
@@ -507,9 +578,7 @@ def execute(case):
         cfg = case["cfg"]
         install_spy()
         _spy_log.clear()
-        with warnings.catch_warnings():
-            warnings.simplefilter("ignore")
-            soup = BeautifulSoup(case["markup"], "html.parser", **builder_kwargs(cfg))
+        soup = make_soup(case["markup"], cfg)
         tag = soup.find(True)
         seen = _spy_log[0] if _spy_log else None
         case["_seen"] = seen
@@ -533,20 +602,21 @@ def execute(case):
                 if case["attrs"] is not None:
                     attrs = dc[case["acls"]]()
                     for k, vd in case["attrs"]:
-                        dict.__setitem__(attrs, k, mk(vd))
+                        dict.__setitem__(attrs, key_obj(k), mk(vd))
                 if case.get("via") == "copy":
-                    # a tag holding `attrs` in a plain dictionary, copied: Tag.copy_self -> Tag(None, None, ..., attrs=...)
+                    # a tag holding `attrs` (raw, in a dictionary of class acls), copied with Tag.copy_self
                     src = Tag(name=case["name"], is_xml=case["isxml"])
                     src.attrs = attrs if attrs is not None else dc["plain"]()
                     tag = copy.copy(src)
                 else:
                     tag = Tag(name=case["name"], is_xml=case["isxml"], attrs=attrs)
             else:
-                soup = BeautifulSoup("", "html.parser", **builder_kwargs(cfg))
+                soup = make_soup("", cfg)
+                extra_kw = {"nsprefix": case["nsprefix"]} if case.get("nsprefix") else {}
                 if case["attrs"] is None:
-                    tag = soup.new_tag(case["name"])
+                    tag = soup.new_tag(case["name"], **extra_kw)
                 else:
-                    tag = soup.new_tag(case["name"], attrs={k: mk(vd) for k, vd in case["attrs"]})
+                    tag = soup.new_tag(case["name"], attrs={key_obj(k): mk(vd) for k, vd in case["attrs"]}, **extra_kw)
             for kd, vd in case["sets"]:
                 tag[mk_key(kd)] = mk(vd)
         except ValueError:
@@ -561,6 +631,12 @@ def execute(case):
 
 def model_line(case) -> str:
     kind = case["kind"]
+    if kind == "history":
+        return history_line(case)
+    if kind == "format":
+        return format_line(case)
+    if kind == "access":
+        return access_line(case)
     if kind == "split":
         return "c17 split " + tok(case["s"])
     if kind == "multi":
@@ -573,6 +649,10 @@ def model_line(case) -> str:
         name, attrs = case["name"], case["attrs"]
         raw = "&".join(f"{tok(k)}={'~' if v is None else tok(v)}" for k, v in attrs) or "-"
         return f"c17 parse {m} {d} {l} {ONDUP_MODEL[case['cfg'].get('ondup', 'absent')]} {tok(name)} {raw}"
+    if kind == "tag" and case.get("via") == "copy":
+        items = "&".join(f"{tok(key_str(k))}={enc_val(mk(vd))}" for k, vd in case["attrs"]) or "-"
+        sets = "&".join(f"{enc_key(kd)}={enc_val(mk(vd))}" for kd, vd in case["sets"]) or "-"
+        return f"c17 copy {case['acls']} 1 {1 if case['isxml'] else 0} {tok(case['name'])} {items} {sets}"
     if kind == "tag":
         cfg = case["cfg"]
         if cfg is None:
@@ -583,7 +663,7 @@ def model_line(case) -> str:
         if case["attrs"] is None:
             attrs = "~"
         else:
-            items = "&".join(f"{tok(k)}={enc_val(mk(vd))}" for k, vd in case["attrs"]) or "-"
+            items = "&".join(f"{tok(key_str(k))}={enc_val(mk(vd))}" for k, vd in case["attrs"]) or "-"
             attrs = f"{case['acls']}@{items}"
         sets = "&".join(f"{enc_key(kd)}={enc_val(mk(vd))}" for kd, vd in case["sets"]) or "-"
         return f"c17 tag {b} {m} {d} {l} {1 if case['isxml'] else 0} {tok(case['name'])} {attrs} {sets}"
@@ -591,6 +671,8 @@ def model_line(case) -> str:
 
 
 def canon_model(case, reply):
+    if case["kind"] == "format":
+        return canon_format_reply(reply)
     return canon_model_tag(reply) if case["kind"] in ("parse", "tag") else reply
 
 
@@ -683,13 +765,15 @@ def gen_cfg(r, allow_ondup=True):
     cfg = {"mva": mva, "dcls": r.choice(["absent", "absent", "plain", "html", "xml"]), "lcls": r.choice([0, 0, 1, 2])}
     if allow_ondup:
         cfg["ondup"] = r.choice(["absent", "replace", "None", "ignore", "accumulate", "noop", "drop", "upper"])
+    if r.random() < 0.15:
+        cfg["xml"] = True      # XML-flavoured builder (is_xml, the empty base table unless a map is given)
     return cfg
 
 
 def gen_parse_case(r, dup=True):
     t, tags, attrs = table_names()
-    name = r.choice(tags + ["p", "div", "span", "tr", "x-y", "b"])
-    apool = attrs + ["id", "href", "title", "data-x", "style"]
+    name = r.choice(tags + ["p", "div", "span", "tr", "x-y", "b", "svg:a", "x:td", "svg:svg"])
+    apool = attrs + ["id", "href", "title", "data-x", "style", "xlink:href", "xml:lang", "svg:class", "x:rel"]
     n = r.randint(1, 4)
     names = [r.choice(apool) for _ in range(n)]
     if dup and r.random() < 0.7:
@@ -761,12 +845,19 @@ def gen_tag_case(r):
         cfg = gen_cfg(r, allow_ondup=False)
         dcls = cfg["dcls"]
         acls = "plain" if dcls == "absent" else dcls
-        return {"kind": "tag", "cfg": cfg, "isxml": False, "name": name, "attrs": pre, "acls": acls, "sets": sets}
+        c = {"kind": "tag", "cfg": cfg, "isxml": False, "name": name, "attrs": pre, "acls": acls, "sets": sets}
+        if r.random() < 0.3:
+            c["nsprefix"] = r.choice(["svg", "x"])       # the prefix is not part of tag.name: the table lookup ignores it
+        if pre is not None and r.random() < 0.4:
+            # NamespacedAttribute keys, as an XML builder would deliver them
+            nk = r.choice([["q", "xlink", "href"], ["q", None, "class"], ["q", "svg", "class"], ["q", "", "rel"], ["q", "xml", "lang"]])
+            if key_str(nk) not in [key_str(k) for k, _ in pre]:
+                pre.append([nk, ["s", gen_ws_string(r, exotic=False)]])      # string values, as a parser delivers them
+        return c
     c = {"kind": "tag", "cfg": None, "isxml": r.random() < 0.4, "name": name, "attrs": pre,
          "acls": r.choice(["plain", "plain", "html", "xml"]), "sets": sets}
     if mode == "copy":
         c["via"] = "copy"
-        c["acls"] = "plain"
         if pre is None:
             c["attrs"] = []
     return c
@@ -775,6 +866,546 @@ def gen_tag_case(r):
 # --------------------------------------------------------------------------------------
 # running
 # --------------------------------------------------------------------------------------
+
+# --------------------------------------------------------------------------------------
+# histories: several tags with the same raw values under one builder, lists changed in place
+# --------------------------------------------------------------------------------------
+
+LIST_OPS = ["append", "remove", "clear", "sort", "iadd", "reverse", "pop", "insert0"]
+
+
+def doc_markup(tags):
+    """tags = [[name, [[k, v], ...]], ...] -> a flat document, one element per entry"""
+    void = {"link", "area", "br", "input", "img", "hr", "meta"}
+    out = ""
+    for i, (name, attrs) in enumerate(tags):
+        out += markup_for(name, attrs)
+        if name not in void:
+            out += f"t{i}</{name}>"
+    return out
+
+
+def _otag_canon(t) -> str:
+    return f"{tok(t['name'])} ok {t['cls']} {t['lcls']} x{t['x']} {enc_items(t['attrs'])} R {oracle_render(t['attrs'])}"
+
+
+def _copy_val(v):
+    return v.__class__(v) if isinstance(v, list) else v
+
+
+def apply_list_op(lst, op, arg):
+    """the in-place operation, on a Python list (used on the real list and on the oracle's own list alike)"""
+    if op == "append":
+        lst.append(arg)
+    elif op == "remove":
+        lst.remove(arg)
+    elif op == "clear":
+        lst.clear()
+    elif op == "sort":
+        lst.sort()
+    elif op == "iadd":
+        lst += list(arg)
+    elif op == "reverse":
+        lst.reverse()
+    elif op == "pop":
+        lst.pop()
+    elif op == "insert0":
+        lst.insert(0, arg)
+    else:
+        raise ValueError(op)
+
+
+def simulate_history(case):
+    """The property statement over a history, in plain Python: every attribute owns a fresh list of its own tokens;
+    an in-place change touches that list only.  Returns (valid flags per step, canonical state after each step,
+    model steps)."""
+    cfg = case["cfg"]
+    table = live_table(cfg)
+    dcls = cfg.get("dcls", "absent")
+    dcls = "plain" if dcls == "absent" else dcls
+    lcls = cfg.get("lcls", 0) or 1
+    bx = 1 if cfg.get("xml") else 0
+    _, lc = _classes()
+    tags, valid, states, msteps = [], [], [], []
+    for st in case["steps"]:
+        ok = True
+        if st[0] == "doc":
+            for name, attrs in st[1]:
+                d = {}
+                for k, v in attrs:
+                    d[k] = "" if v is None else v          # replace policy: last value, first position
+                oracle_multi(table, name, d, lcls)
+                tags.append({"name": name, "cls": dcls, "lcls": lcls, "x": bx, "attrs": d})
+                raw = "&".join(f"{tok(k)}={'~' if v is None else tok(v)}" for k, v in attrs) or "-"
+                msteps.append(f"P!{tok(name)}!{raw}")
+        elif st[0] == "new":
+            name, attrs = st[1], st[2]
+            d = {k: v for k, v in attrs}
+            oracle_multi(table, name, d, lcls)
+            tags.append({"name": name, "cls": dcls, "lcls": lcls, "x": bx, "attrs": d})
+            items = "&".join(f"{tok(k)}={enc_val(v)}" for k, v in attrs) or "-"
+            msteps.append(f"N!{tok(name)}!{items}")
+        elif st[0] == "copy":
+            i = st[1]
+            if i >= len(tags):
+                ok = False
+            else:
+                d = {}
+                ccls = tags[i]["cls"]      # a copy holds the same kind of dictionary as the original
+                for k, v in tags[i]["attrs"].items():
+                    oracle_store(ccls, d, k, _copy_val(v))
+                tags.append({"name": tags[i]["name"], "cls": ccls, "lcls": 1, "x": tags[i]["x"], "attrs": d})
+                msteps.append(f"C!{i}")
+        elif st[0] == "mut":
+            _, i, key, op, arg = st
+            v = tags[i]["attrs"].get(key) if i < len(tags) else None
+            if not isinstance(v, list) or (op == "remove" and arg not in v) or (op == "pop" and not v):
+                ok = False
+            else:
+                apply_list_op(v, op, arg)
+                a = "_" if op in ("clear", "sort", "reverse", "pop") else ("/".join(tok(x) for x in arg) or "_") if op == "iadd" else tok(arg)
+                msteps.append(f"M!{i}!{tok(key)}!{op}!{a}")
+        elif st[0] == "set":
+            _, i, kd, vd = st
+            if i >= len(tags):
+                ok = False
+            else:
+                oracle_store(tags[i]["cls"], tags[i]["attrs"], mk_key(kd), mk(vd))
+                msteps.append(f"S!{i}!{enc_key(kd)}={enc_val(mk(vd))}")
+        elif st[0] == "del":
+            _, i, key = st
+            if i >= len(tags):
+                ok = False
+            else:
+                tags[i]["attrs"].pop(key, None)          # deleting a missing attribute is not an error
+                msteps.append(f"D!{i}!{tok(key)}")
+        valid.append(ok)
+        states.append([_otag_canon(t) for t in tags])
+    return valid, states, msteps, tags
+
+
+def history_line(case) -> str:
+    msteps = simulate_history(case)[2]
+    m, d, l = cfg_model(case["cfg"])
+    return f"c17 hist {m} {d} {l} " + ("|".join(msteps) or "-")
+
+
+def exec_history(case):
+    """the same history on the real code, with the checks a history needs: state after every step against the oracle,
+    other attributes against a snapshot taken before each in-place change, no list object shared, search results"""
+    from bs4 import BeautifulSoup
+    from bs4.builder._htmlparser import HTMLParserTreeBuilder
+    cfg = case["cfg"]
+    kw = builder_kwargs(cfg)
+    valid, states = simulate_history(case)[:2]
+    shared = make_builder(cfg) if case["reuse"] else None
+    install_spy()
+    soups, tags, owner, extra = [], [], [], []
+
+    def real_state():
+        return [f"{tok(t.name)} " + show_tag(t) for t in tags]
+
+    def aliasing():
+        seen = {}
+        for j, t in enumerate(tags):
+            for k, v in t.attrs.items():
+                if isinstance(v, list):
+                    if id(v) in seen:
+                        return (seen[id(v)], (j, str(k)))
+                    seen[id(v)] = (j, str(k))
+        return None
+
+    for n, (st, ok) in enumerate(zip(case["steps"], valid)):
+        if not ok:
+            continue
+        if st[0] == "doc":
+            _spy_log.clear()
+            soup = make_soup(doc_markup(st[1]), cfg, shared)
+            found = soup.find_all(True)
+            want = [(nm, [(k, v) for k, v in al]) for nm, al in st[1]]
+            if [(a, list(b)) for a, b in _spy_log] != want or len(found) != len(want):
+                case["_skip"] = True         # the tokenizer read the markup differently: not a history we can speak about
+                return "skip", []
+            for t in found:
+                tags.append(t)
+                owner.append(len(soups))
+            soups.append(soup)
+        elif st[0] == "new":
+            tags.append(soups[-1].new_tag(st[1], attrs={k: v for k, v in st[2]}))
+            owner.append(None)
+        elif st[0] == "copy":
+            tags.append(copy.copy(tags[st[1]]))
+            owner.append(None)
+        elif st[0] == "mut":
+            _, i, key, op, arg = st
+            before = real_state()
+            lst = tags[i].attrs.get(key)
+            if not isinstance(lst, list):
+                extra.append(("a multi-valued attribute does not hold a list when it is changed in place",
+                              f"step {n}: tag {i}[{key!r}] is a list", repr(lst)))
+                break
+            try:
+                if op == "iadd":
+                    tags[i][key] += list(arg)
+                else:
+                    apply_list_op(lst, op, arg)
+            except (ValueError, IndexError) as ex:
+                extra.append(("an in-place list operation that is valid on the attribute's documented tokens raised",
+                              f"step {n}: tag {i}[{key!r}].{op}({arg!r}) applies to {states[n - 1][i] if n else '?'}",
+                              f"raised {type(ex).__name__}: {ex}; the tag holds {before[i]}"))
+                break
+            after = real_state()
+            for j, (b, a) in enumerate(zip(before, after)):
+                if j != i and a != b:
+                    extra.append(("an in-place change of one attribute's list changed another tag that was never assigned to",
+                                  f"step {n} ({op} on tag {i}[{key!r}]) leaves tag {j} as it was: {b}", f"tag {j} is now: {a}"))
+                    break
+        elif st[0] == "set":
+            _, i, kd, vd = st
+            tags[i][mk_key(kd)] = mk(vd)
+        elif st[0] == "del":
+            before = real_state()
+            del tags[st[1]][st[2]]
+            after = real_state()
+            for j, (b, a) in enumerate(zip(before, after)):
+                if j != st[1] and a != b:
+                    extra.append(("deleting one tag's attribute changed another tag", f"step {n}: tag {j} stays {b}", f"tag {j} is now {a}"))
+                    break
+            if tags[st[1]].has_attr(st[2]):
+                extra.append(("del tag[key] leaves the attribute in place", f"step {n}: no {st[2]!r}", "has_attr is still true"))
+        al = aliasing()
+        if al and not any("share one list object" in e[0] for e in extra):
+            extra.append(("two attributes share one list object (each attribute must own the list of its own tokens)",
+                          "distinct list objects", f"after step {n}: (tag, attribute) {al[0]} `is` {al[1]}"))
+        got = real_state()
+        if got != states[n] and not any(e[0].startswith("a tag's attributes differ") for e in extra):
+            k = next((j for j, (a, b) in enumerate(zip(got, states[n])) if a != b), min(len(got), len(states[n])))
+            extra.append(("a tag's attributes differ from the documented values in the course of a history",
+                          f"after step {n} ({st[0]}), tag {k}: " + (states[n][k] if k < len(states[n]) else "<none>"),
+                          f"tag {k}: " + (got[k] if k < len(got) else "<none>")))
+    # search results: every tag of each tree is found by exactly its own tokens
+    if not extra and valid:
+        cur = {}
+        fin = states[-1]
+        for si, soup in enumerate(soups):
+            mine = [j for j in range(len(tags)) if owner[j] == si]
+            for key in ("class", "rel", "headers"):
+                vals = [tags[j].attrs.get(key) for j in mine]
+                if any(v is not None and not isinstance(v, (str, list)) for v in vals) or \
+                        any(isinstance(v, list) and not all(isinstance(x, str) for x in v) for v in vals):
+                    continue
+                toks = sorted({x for v in vals if isinstance(v, list) for x in v if x and not any(c.isspace() for c in x)})[:6]
+                for tk in toks + ["zz-absent"]:
+                    want = [j for j in mine if _oracle_matches(case, fin, j, key, tk, cur)]
+                    res = soup.find_all(True, attrs={key: tk})
+                    gotj = [j for j in mine if any(tags[j] is x for x in res)]
+                    if gotj != want:
+                        extra.append(("search by attribute token does not find exactly the tags holding that token",
+                                      f"find_all({key}={tk!r}) in document {si}: tags {want}", f"tags {gotj}"))
+                        break
+    return " ## ".join(real_state()) or "-", extra
+
+
+def _oracle_matches(case, fin, j, key, tk, cache):
+    """does the documented value of tag j's attribute match the token? (a list matches by any element or by its joined
+    form, a string by equality)"""
+    if "tags" not in cache:
+        cache["tags"] = _final_oracle_tags(case)
+    v = cache["tags"][j]["attrs"].get(key)
+    if isinstance(v, list):
+        return tk in v or " ".join(v) == tk
+    return v == tk
+
+
+def _final_oracle_tags(case):
+    """the oracle's final tags as Python objects"""
+    return simulate_history(case)[3]
+
+
+def gen_history_case(r):
+    t, tags, attrs = table_names()
+    # a small pool of raw values, so that identical source strings meet often
+    pool = []
+    for _ in range(r.randint(1, 3)):
+        s = gen_ws_string(r, exotic=r.random() < 0.4)
+        pool.append(s if s.split() else "note\tbig")
+    if r.random() < 0.2:
+        pool.append(r.choice(["", " ", "one"]))
+    pairs = [("p", "class"), ("div", "class"), ("a", "rel"), ("a", "class"), ("link", "rel"), ("td", "headers"),
+             ("th", "headers"), ("span", "accesskey"), ("td", "class"), ("p", "id"), ("a", "href"), ("p", "title")]
+    mva = r.choice(["default"] * 6 + [None, [("*", ["id", "class"])], [("p", ["class", "title"]), ("a", ["href"])]])
+    cfg = {"mva": mva, "dcls": r.choice(["absent", "absent", "plain", "html", "xml"]), "lcls": r.choice([0, 0, 1, 2])}
+    if r.random() < 0.2:
+        cfg["xml"] = True          # XML-flavoured builder: is_xml, no table of its own (mva "default" = the empty base table)
+        cfg["mva"] = r.choice(["default", [("*", ["class"])], [("p", ["class", "title"]), ("a", ["rel"])]])
+
+    def a_tag():
+        name, key = r.choice(pairs)
+        al = [[key, r.choice(pool)]]
+        if r.random() < 0.4:
+            k2 = r.choice(["class", "rel", "id", "title", "headers"])
+            if k2 != key:
+                al.append([k2, r.choice(pool)])
+        return [name, al]
+
+    def a_doc():
+        return ["doc", [a_tag() for _ in range(r.randint(2, 4))]]
+
+    steps = [a_doc()]
+    tagkeys = [[k for k, _ in al] for _, al in steps[0][1]]      # the attributes each tag carries (targets of changes)
+    for _ in range(r.randint(3, 9)):
+        x = r.random()
+        if x < 0.5:
+            i = r.randrange(len(tagkeys))
+            key = r.choice(tagkeys[i]) if r.random() < 0.85 else r.choice(["class", "rel", "headers", "accesskey", "id", "title"])
+            op = r.choice(LIST_OPS)
+            arg = None
+            if op in ("append", "insert0"):
+                arg = r.choice(["seen", "x", "a", "big"])
+            elif op == "remove":
+                arg = r.choice([w for s in pool for w in s.split()] * 3 + ["seen", "x"])
+            elif op == "iadd":
+                arg = [r.choice(["u", "v", "a"]) for _ in range(r.randint(0, 2))]
+            steps.append(["mut", i, key, op, arg])
+        elif x < 0.7:
+            d = a_doc()
+            steps.append(d)
+            tagkeys += [[k for k, _ in al] for _, al in d[1]]
+        elif x < 0.8:
+            name, key = r.choice(pairs)
+            steps.append(["new", name, [[key, r.choice(pool)]]])
+            tagkeys.append([key])
+        elif x < 0.9:
+            i = r.randrange(len(tagkeys))
+            steps.append(["copy", i])
+            tagkeys.append(list(tagkeys[i]))
+        elif x < 0.95:
+            i = r.randrange(len(tagkeys))
+            steps.append(["del", i, r.choice(tagkeys[i] + ["class", "nope"])])
+        else:
+            vd = r.choice([["s", r.choice(pool)], ["l", 0, ["q", "r"]], ["b", True], ["n"], ["i", "0"], ["i", "7"], ["l", 1, []]])
+            i = r.randrange(len(tagkeys))
+            k = r.choice(["class", "rel", "id"])
+            steps.append(["set", i, ["p", k], vd])
+            if k not in tagkeys[i]:
+                tagkeys[i].append(k)
+    return {"kind": "history", "cfg": cfg, "reuse": r.random() < 0.6, "steps": steps}
+
+
+def directed_history_cases():
+    """the shapes named in the property's history reading, for every in-place operation"""
+    out = []
+    for reuse in (True, False):
+        for dcls in ("absent", "html"):
+            for op, arg in (("append", "seen"), ("remove", "note"), ("clear", None), ("sort", None), ("iadd", ["u"]),
+                            ("reverse", None), ("pop", None), ("insert0", "x")):
+                cfg = {"mva": "default", "dcls": dcls, "lcls": 0}
+                steps = [["doc", [["p", [["class", "note\tbig"]]], ["p", [["class", "note\tbig"]]], ["a", [["rel", "note\tbig"]]]]],
+                         ["mut", 0, "class", op, arg],
+                         ["new", "span", [["class", "note\tbig"]]],
+                         ["doc", [["td", [["headers", "note\tbig"]]], ["p", [["class", "note\tbig"]]]]],
+                         ["copy", 1],
+                         ["mut", 6, "class", op, arg],
+                         ["mut", 3, "class", "append", "late"],
+                         ["doc", [["th", [["headers", "note\tbig"]]]]]]
+                out.append({"kind": "history", "cfg": cfg, "reuse": reuse, "steps": steps})
+    return out
+
+
+# --------------------------------------------------------------------------------------
+# output of the attribute part of a tag; reading and deleting attributes
+# --------------------------------------------------------------------------------------
+
+FORMATTERS = ["id0", "id1", "None", "minimal", "html", "html5", "html5-4.12"]
+
+
+def _tag_holding(case):
+    """a builder-less tag whose dictionary holds exactly the given (key, value) pairs (stored without coercion)"""
+    from bs4.element import Tag
+    dc, lc = _classes()
+    t = Tag(name=case.get("name", "a"), is_xml=bool(case.get("isxml")))
+    d = dc[case.get("acls", "plain")]()
+    for k, vd in case["items"]:
+        dict.__setitem__(d, key_obj(k), mk(vd))
+    t.attrs = d
+    if case.get("lcls"):
+        t.attribute_value_list_class = lc[case["lcls"]]
+    return t
+
+
+def _formatter_for(case, tag):
+    from bs4.formatter import HTMLFormatter
+    f = case["fmt"]
+    if f in ("id0", "id1"):
+        return HTMLFormatter(entity_substitution=None, empty_attributes_are_booleans=(f == "id1"))
+    return tag.formatter_for_name(None if f == "None" else f)
+
+
+def _attr_string_of(out, name):
+    """the text between `<name` and the end of the start tag of an element without contents"""
+    assert out.startswith("<" + name), out
+    body = out[len(name) + 1:]
+    for tail in (f"></{name}>", "/>", ">"):
+        if body.endswith(tail):
+            return body[:-len(tail)]
+    return body
+
+
+def exec_format(case):
+    tag = _tag_holding(case)
+    fm = _formatter_for(case, tag)
+    try:
+        out = tag.decode(formatter=fm)
+    except ValueError:
+        return "valueError", []
+    return "ok " + tok(_attr_string_of(out, tag.name)), []
+
+
+def oracle_format(case):
+    """the documented attribute string, written independently: attributes in key order, None (and "" for a formatter
+    with empty_attributes_are_booleans) as the bare key, lists joined by single spaces, other values by str(); double
+    quotes unless the text has a double quote and no single quote; with both, the double quotes as &quot;"""
+    tag = _tag_holding(case)
+    eb = _formatter_for(case, tag).empty_attributes_are_booleans
+    parts = []
+    try:
+        for k, v in sorted(tag.attrs.items(), key=lambda kv: str(kv[0])):
+            if v is None or (eb and isinstance(v, str) and v == ""):
+                parts.append(str(k))
+                continue
+            text = " ".join(v) if isinstance(v, list) else v if isinstance(v, str) else str(v)
+            if '"' in text and "'" in text:
+                q = '"' + text.replace('"', "&quot;") + '"'
+            elif '"' in text:
+                q = "'" + text + "'"
+            else:
+                q = '"' + text + '"'
+            parts.append(f"{k}={q}")
+    except ValueError:
+        return "valueError"
+    return "ok " + tok("".join(" " + p for p in parts))
+
+
+def format_line(case):
+    tag = _tag_holding(case)
+    eb = _formatter_for(case, tag).empty_attributes_are_booleans     # the registry flag is generated into Lean too
+    items = "&".join(f"{tok(key_str(k))}={enc_val(mk(vd))}" for k, vd in case["items"]) or "-"
+    return f"c17 fmt {1 if eb else 0} {items}"
+
+
+def canon_format_reply(rep):
+    """the model writes str() of an opaque object as one private-use code point"""
+    if not rep.startswith("ok "):
+        return rep
+    cpsl = [] if rep[3:] == "-" else rep[3:].split(",")
+    out = []
+    for c in cpsl:
+        n = int(c)
+        if 0xE000 <= n < 0xE000 + len(OTHERS):
+            out += [str(ord(ch)) for ch in str(OTHERS[n - 0xE000][1])]
+        else:
+            out.append(c)
+    return "ok " + (",".join(out) if out else "-")
+
+
+FMT_SAFE_STRS = ["", "x", "a b", " a  b ", "0", "it's", 'say "hi"', "both \" and '", "'", '"', "q'\"'q"]
+FMT_KEYS = ["id", "class", "Z", "a", "href", "data-x", "xml:lang", "é", "ab", "aB", "_x", ["q", "xlink", "href"],
+            ["q", "xmlns", None], ["q", None, "class"], "10", "9"]
+
+
+def gen_format_case(r):
+    ks = r.sample(FMT_KEYS, r.randint(0, 5))
+    seen, items = set(), []
+    for k in ks:
+        if key_str(k) in seen:
+            continue
+        seen.add(key_str(k))
+        x = r.random()
+        if x < 0.45:
+            vd = ["s", r.choice(FMT_SAFE_STRS)]
+        elif x < 0.7:
+            vd = ["l", r.choice([0, 1, 2]), [r.choice(["a", "b", "it's", 'q"', "", "x y"]) for _ in range(r.randint(0, 3))]]
+        else:
+            vd = list(r.choice(LIGHT_GRID))
+        items.append([k, vd])
+    fmt = r.choice(FORMATTERS)
+    return {"kind": "format", "fmt": fmt, "isxml": fmt in ("minimal", "html", "None") and r.random() < 0.3,
+            "name": r.choice(["a", "p", "x-y"]), "items": items}
+
+
+def exec_access(case):
+    tag = _tag_holding(case)
+
+    def probe(k):
+        try:
+            gi = enc_val(tag[k])
+        except KeyError:
+            gi = "KeyError"
+        def al(v):
+            if not isinstance(v, list):
+                return "notalist:" + repr(v)
+            c = 0 if type(v) is list else lcls_id(type(v))
+            if all(isinstance(x, str) for x in v):
+                return f"l:{c}:" + "/".join(tok(x) for x in v)
+            return f"L:{c}:" + enc_val(v[0])
+        return (f"{tok(k)} h{1 if tag.has_attr(k) else 0} g={enc_val(tag.get(k))} gd={enc_val(tag.get(k, 'd'))} "
+                f"a={al(tag.get_attribute_list(k))} ad={al(tag.get_attribute_list(k, ['d']))} i={gi}")
+
+    first = " | ".join(probe(k) for k in case["probes"])
+    for k in case["dels"]:
+        del tag[k]
+    return first + " || " + enc_items(tag.attrs) + " || " + " | ".join(probe(k) for k in case["probes"]), []
+
+
+def oracle_access(case):
+    """the documented meaning of has_attr / get / get_attribute_list / tag[key] / del over an ordinary dict"""
+    d = {key_str(k): mk(vd) for k, vd in case["items"]}
+    lcls = case.get("lcls") or 1
+
+    def probe(k):
+        def al(v):
+            if v is None:
+                return f"l:{lcls}:"
+            if isinstance(v, list):
+                c = 0 if type(v) is list else lcls_id(type(v))
+                return f"l:{c}:" + "/".join(tok(x) for x in v)
+            if isinstance(v, str):
+                return f"l:{lcls}:{tok(v)}"
+            return f"L:{lcls}:{enc_val(v)}"
+        has = k in d
+        return (f"{tok(k)} h{1 if has else 0} g={enc_val(d.get(k))} gd={enc_val(d.get(k, 'd'))} "
+                f"a={al(d.get(k))} ad={al(d.get(k, ['d']))} i={enc_val(d[k]) if has else 'KeyError'}")
+
+    first = " | ".join(probe(k) for k in case["probes"])
+    for k in case["dels"]:
+        d.pop(k, None)
+    return first + " || " + enc_items(d) + " || " + " | ".join(probe(k) for k in case["probes"])
+
+
+def access_line(case):
+    items = "&".join(f"{tok(key_str(k))}={enc_val(mk(vd))}" for k, vd in case["items"]) or "-"
+    pr = ";".join(tok(k) for k in case["probes"]) or "-"
+    dl = ";".join(tok(k) for k in case["dels"]) or "-"
+    return f"c17 acc {case.get('acls', 'plain')} {case.get('lcls') or 1} {items} {pr} {dl}"
+
+
+def gen_access_case(r):
+    ks = r.sample(["id", "class", "rel", "k", "xml:lang", ["q", "xlink", "href"], ["q", None, "class"], "x"], r.randint(0, 4))
+    seen, items = set(), []
+    for k in ks:
+        if key_str(k) in seen:
+            continue
+        seen.add(key_str(k))
+        items.append([k, pick_value(r) if r.random() < 0.6 else ["l", r.choice([0, 1, 2]), [r.choice(["a", "b", ""]) for _ in range(r.randint(0, 3))]]])
+    pool = [key_str(k) for k, _ in items] + ["missing", "class", "id"]
+    probes = []
+    for _ in range(r.randint(1, 4)):
+        k = r.choice(pool)
+        if k not in probes:
+            probes.append(k)
+    return {"kind": "access", "acls": r.choice(["plain", "html", "xml"]), "lcls": r.choice([0, 1, 2]), "items": items,
+            "probes": probes, "dels": [r.choice(pool) for _ in range(r.randint(0, 2))]}
+
 
 def zero_defect_class(case, observed, expected):
     """Does this failing case fall into the class `a number equal to False assigned through HTMLAttributeDict`?
@@ -792,6 +1423,21 @@ def zero_defect_class(case, observed, expected):
     return any(zeroish(vd) for vd in vals)
 
 
+def known_finding_class(case, observed, expected):
+    """Classifier for recorded findings (computed from the case itself).
+    C17-copy-first-pass-huge-int: copy.copy of a tag whose *plain* AttributeDict holds an int beyond the interpreter's
+    str() digit limit raises ValueError: copy_self first builds a builder-less Tag, whose HTML/XML container tries to
+    turn the int into a string, before the attributes are replaced by the original's."""
+    if case.get("kind") == "tag" and case.get("via") == "copy" and case.get("acls") == "plain" and observed == "valueError":
+        lim = sys.get_int_max_str_digits()
+        for _, vd in case.get("attrs") or []:
+            if vd[0] == "i":
+                v = mk(vd)
+                if lim and len(big_dec(abs(v))) > lim:
+                    return "C17-copy-first-pass-huge-int"
+    return None
+
+
 def nontrivial_key(case):
     k = case["kind"]
     if k == "split":
@@ -802,6 +1448,10 @@ def nontrivial_key(case):
         return ("dict", case["cls"], json.dumps(case["sets"]))
     if k == "parse":
         return ("parse", json.dumps(case["cfg"]), case["markup"])
+    if k in ("format", "access"):
+        return (k, json.dumps(case, sort_keys=True, default=str)) if case["items"] else None
+    if k == "history":
+        return ("history", json.dumps(case, sort_keys=True, default=str)) if any(st[0] == "mut" for st in case["steps"]) else None
     return ("tag", json.dumps(case, sort_keys=True, default=str))
 
 
@@ -821,6 +1471,9 @@ def check_cases(ctx: Ctx, stream: str, cases: list):
     kept = []
     for c, o, e in zip(cases, obs, exts):
         c.pop("_human", None)
+        if c.pop("_skip", False):
+            ctx.count(f"{stream}:skipped-tokenizer-read-other-markup")
+            continue
         if c["kind"] == "parse":
             seen = c.pop("_seen", None)
             if seen is None:
@@ -842,7 +1495,8 @@ def check_cases(ctx: Ctx, stream: str, cases: list):
             what = "attribute value differs from the documented rule"
             if zero_defect_class(c, o, want):
                 what += " (a number equal to False assigned through HTMLAttributeDict is dropped)"
-            ctx.violation(what, case=c | {"line": line}, expected=want, observed=o, model=rep, stream=stream)
+            ctx.violation(what, case=c | {"line": line}, expected=want, observed=o, model=rep, stream=stream,
+                          kf=known_finding_class(c, o, want))
             ctx.count(f"{stream}:oracle-fail")
         elif o != rep:
             ctx.corr_disagreements += 1
@@ -968,8 +1622,9 @@ def run(ctx: Ctx):
                           "sets": [[["p", "k"], list(vd)]]})
             cases.append({"kind": "tag", "cfg": None, "isxml": isxml, "name": "a", "attrs": [["k", list(vd)], ["class", ["s", "x y"]]],
                           "acls": "plain", "sets": []})
-            cases.append({"kind": "tag", "cfg": None, "isxml": isxml, "name": "a", "attrs": [["k", list(vd)]],
-                          "acls": "plain", "sets": [], "via": "copy"})
+            for acls in ("plain", "html", "xml"):
+                cases.append({"kind": "tag", "cfg": None, "isxml": isxml, "name": "a", "attrs": [["k", list(vd)]],
+                              "acls": acls, "sets": [], "via": "copy"})
         for dcls in ("absent", "plain", "html", "xml"):
             for mva in ("default", None):
                 cfg = {"mva": mva, "dcls": dcls, "lcls": 0}
@@ -1019,6 +1674,35 @@ def run(ctx: Ctx):
         ctx.count("parse-malformed:dup" if len(set(ks)) < len(ks) else "parse-malformed:nodup")
         ctx.count("parse-malformed:valueless" if any(v is None for _, v in c["attrs"]) else "parse-malformed:all-valued")
 
+    # ---- 5b. histories: identical raw values under one builder, lists changed in place ------------------------------
+    r = ctx.rng("history")
+    cases = directed_history_cases() + [gen_history_case(r) for _ in range(ctx.n(2500, 12000))]
+    for c in cases:
+        v = simulate_history(c)[0]
+        ctx.count("history:reused-builder" if c["reuse"] else "history:fresh-builders")
+        ctx.count("history:inplace-changes-applied", sum(1 for st, ok in zip(c["steps"], v) if ok and st[0] == "mut"))
+        ctx.count("history:documents", sum(1 for st in c["steps"] if st[0] == "doc"))
+        ctx.count("history:new_tag+copy", sum(1 for st, ok in zip(c["steps"], v) if ok and st[0] in ("new", "copy")))
+        ms = [n for n, (st, ok) in enumerate(zip(c["steps"], v)) if ok and st[0] == "mut"]
+        if ms and any(st[0] == "doc" for st in c["steps"][ms[0] + 1:]):
+            ctx.count("history:document-parsed-after-an-inplace-change")
+    check_cases(ctx, "history", cases)
+
+    # ---- 5c. the attribute part of the output, for every formatter; reading and deleting ----------------------------
+    r = ctx.rng("format")
+    cases = []
+    for fmt in FORMATTERS:
+        for vd in LIGHT_GRID + [["s", x] for x in FMT_SAFE_STRS] + [["l", 1, ["it's", 'q"']], ["l", 0, ["x y", ""]]]:
+            cases.append({"kind": "format", "fmt": fmt, "isxml": False, "name": "a", "items": [["k", list(vd)], ["Z", ["s", ""]], ["b", ["n"]]]})
+    ctx.exhaustive_parts.append(f"format: every grid value x every formatter ({len(cases)} cases)")
+    cases += [gen_format_case(r) for _ in range(ctx.n(4000, 20000))]
+    for c in cases:
+        ctx.count("format:fmt=" + c["fmt"])
+    check_cases(ctx, "format", cases)
+    r = ctx.rng("access")
+    cases = [gen_access_case(r) for _ in range(ctx.n(4000, 20000))]
+    check_cases(ctx, "access", cases)
+
     # ---- 6. str.lower table: the model's per-code-point lower against the runtime ------------------------------------
     pts = [c for c in range(sys.maxunicode + 1) if not (0xD800 <= c <= 0xDFFF) and chr(c).lower() != chr(c)]
     r = ctx.rng("lower")
@@ -1043,7 +1727,7 @@ def run(ctx: Ctx):
 def replay(path):
     v = json.load(open(path))
     c = v["case"]
-    if c.get("kind") in ("split", "multi", "dict", "parse", "tag"):
+    if c.get("kind") in ("split", "multi", "dict", "parse", "tag", "history", "format", "access"):
         c = {k: x for k, x in c.items() if k != "line"}
         def human(cc):
             if cc["kind"] == "dict":
@@ -1056,6 +1740,26 @@ def replay(path):
                 return f"{how} attrs={pre!r}"[:300] + "; then " + "; ".join(f"tag[{mk_key(kd)!r}] = {vd!r}"[:80] for kd, vd in cc["sets"])
             if cc["kind"] == "parse":
                 return f"BeautifulSoup({cc['markup']!r}, 'html.parser', options={cc['cfg']!r})"
+            if cc["kind"] == "history":
+                out = [f"builder options {cc['cfg']!r}; " + ("ONE builder object for all documents" if cc["reuse"] else "a fresh builder per document")]
+                n = 0
+                for st in cc["steps"]:
+                    if st[0] == "doc":
+                        out.append(f"  parse {doc_markup(st[1])!r}  -> tags {n}..{n + len(st[1]) - 1}")
+                        n += len(st[1])
+                    elif st[0] == "new":
+                        out.append(f"  tag {n} = soup.new_tag({st[1]!r}, attrs={dict(st[2])!r})")
+                        n += 1
+                    elif st[0] == "copy":
+                        out.append(f"  tag {n} = copy.copy(tag {st[1]})")
+                        n += 1
+                    elif st[0] == "mut":
+                        out.append(f"  tag {st[1]}[{st[2]!r}].{st[3]}({'' if st[4] is None else repr(st[4])})   (skipped when not applicable)")
+                    elif st[0] == "del":
+                        out.append(f"  del tag {st[1]}[{st[2]!r}]")
+                    else:
+                        out.append(f"  tag {st[1]}[{mk_key(st[2])!r}] = {st[3]!r}")
+                return "\n".join(out)
             return json.dumps(cc)
         print("input:", human(c))
         try:
